@@ -187,6 +187,9 @@ def ddmin_ops(replay_bin, text, scratch, budget=400):
 
 def sanitizer_summary(output):
     for line in output.splitlines():
+        if line.startswith("Error: "):  # libstdc++ debug mode
+            return line.strip()[:300]
+    for line in output.splitlines():
         if "SUMMARY:" in line or "runtime error:" in line or "Error: attempt to" in line or "Assertion" in line:
             return line.strip()[:300]
     for line in output.splitlines():
@@ -568,6 +571,8 @@ def _run_check(pid, p, tier, seed, jobs, findings, scratch, t0):
 
 def _abort_kind(summary):
     s = summary
+    if s.startswith("Error: "):
+        return "libstdcxx-debug:" + "-".join(s[7:].split()[:6]).rstrip(".,")
     for pat in ("heap-buffer-overflow", "heap-use-after-free", "stack-buffer-overflow", "SEGV", "signed integer overflow", "attempt to", "do not form a heap",
                 "runtime error", "LeakSanitizer", "data race", "Assertion"):
         if pat in s:
